@@ -3,12 +3,16 @@ package checks
 import (
 	"context"
 	"fmt"
+	"net"
 	"strings"
 	"sync"
 	"time"
 
 	"github.com/tsuna/gohbase"
 	"github.com/tsuna/gohbase/hrpc"
+	"github.com/tsuna/gohbase/pb"
+	"github.com/tsuna/gohbase/region"
+	"google.golang.org/protobuf/proto"
 
 	"verif/explore"
 	"verif/sim"
@@ -333,7 +337,76 @@ func c09Race() []RaceBody {
 			return nil
 		}
 	}
+	// tier R: one real region client, two callers whose gets share a multi-request; the
+	// server refuses every second multi with an exception for each region; a refused caller
+	// re-resolves its call (SetRegion) and sends it again while the reader goroutine may still
+	// be distributing the other region's exception
+	multiRefused := func(iter int) error {
+		conn := &sim.Conn{Name: "rs1:1"}
+		dial := func(ctx context.Context, network, addr string) (net.Conn, error) { return conn, nil }
+		rc := region.NewClient("rs1:1", region.RegionClient, 2, 50*time.Millisecond, "root", 30*time.Second, nil, dial, quietLogger)
+		srv := &sim.Server{Conn: conn}
+		if err := rc.Dial(context.Background()); err != nil {
+			return err
+		}
+		multis := 0
+		go srv.ServeReal(func(f *sim.Frame) []byte {
+			if mr, ok := f.Req.(*pb.MultiRequest); ok {
+				multis++
+				if multis%2 == 1 {
+					resp := &pb.MultiResponse{}
+					for range mr.RegionAction {
+						resp.RegionActionResult = append(resp.RegionActionResult, &pb.RegionActionResult{Exception: &pb.NameBytesPair{
+							Name: proto.String("org.apache.hadoop.hbase.exceptions.RegionOpeningException"), Value: []byte("opening")}})
+					}
+					return sim.EncodeResponse(f.Header.GetCallId(), resp, nil, nil)
+				}
+			}
+			resp, cells := answer(f)
+			return sim.EncodeResponse(f.Header.GetCallId(), resp, nil, cells)
+		})
+		var wg sync.WaitGroup
+		errs := make(chan error, 8)
+		for g := 0; g < 2; g++ {
+			g := g
+			wg.Add(1)
+			go func() {
+				defer wg.Done()
+				start := []string{"", "m"}[g]
+				stop := []string{"m", ""}[g]
+				key := []string{"a", "x"}[g]
+				for j := 0; j < 4; j++ {
+					call, _ := hrpc.NewGetStr(context.Background(), "t", fmt.Sprintf("%s%d", key, j))
+					for attempt := 0; attempt < 8; attempt++ {
+						call.SetRegion(region.NewInfo(uint64(attempt+1), nil, []byte("t"), []byte(fmt.Sprintf("t,%s,%d", start, attempt+1)), []byte(start), []byte(stop)))
+						rc.QueueRPC(call)
+						select {
+						case res := <-call.ResultChan():
+							if res.Error == nil {
+								attempt = 99
+							} else if _, ok := res.Error.(region.RetryableError); !ok {
+								errs <- fmt.Errorf("get %s%d: %v (%T)", key, j, res.Error, res.Error)
+								return
+							}
+						case <-time.After(20 * time.Second):
+							errs <- fmt.Errorf("get %s%d was never completed", key, j)
+							return
+						}
+					}
+				}
+			}()
+		}
+		wg.Wait()
+		rc.Close()
+		select {
+		case e := <-errs:
+			return e
+		default:
+		}
+		return nil
+	}
 	return []RaceBody{
+		{"region client: multi refused per region, callers re-resolve and resend", multiRefused},
 		{"coloc/connreset", run("coloc", "connreset")},
 		{"spread/nsre-burst", run("spread", "nsre-burst")},
 		{"three/split", run("three", "split")},
